@@ -645,6 +645,38 @@ pub fn run_pest<'i, R: pest::RuleType>(
 pub type PestRunner = fn(&str) -> PestObs;
 pub type TreeRunner = for<'i> fn(&Req<'i>) -> Option<TreeObs>;
 pub type GetterRunner = for<'i> fn(&Req<'i>) -> Option<Vec<getters::GetterObs>>;
+pub type AccRunner = for<'i> fn(&Req<'i>) -> Option<AccObs>;
+
+/// Accessors of a choice / sequence / repetition rule body (C17), filled by generated code.
+#[derive(Clone, Debug, PartialEq, Eq, Default)]
+pub struct AccObs {
+    pub kind: &'static str,
+    /// choice: which `_k()` accessors return Some, with the span of the node inside
+    pub accessors: Vec<Option<(usize, usize)>>,
+    /// choice: index of the closure run by the if_then / else_if / else_then chain
+    pub chain: Option<usize>,
+    /// choice: index of the arm run by match_choices!
+    pub match_choices: Option<usize>,
+    /// sequence: spans by get_matched / as_ref / into_matched / get_all().matched
+    pub get_matched: Vec<(usize, usize)>,
+    pub as_ref: Vec<(usize, usize)>,
+    pub into_matched: Vec<(usize, usize)>,
+    pub get_all_matched: Vec<(usize, usize)>,
+    /// sequence / repetition: tokens skipped before each element (from get_all / iter_all)
+    pub skipped: Vec<Vec<(usize, usize)>>,
+    /// repetition: spans by iter_matched / into_iter_matched / iter_all
+    pub iter_matched: Vec<(usize, usize)>,
+    pub into_iter_matched: Vec<(usize, usize)>,
+    pub iter_all_matched: Vec<(usize, usize)>,
+}
+
+/// Spans of the tokens a node contributes (used for skipped items).
+pub fn tok_spans<'i, R: RuleType, T: Pairs<'i, R>>(t: &T) -> Vec<(usize, usize)> {
+    t.self_or_children().iter().map(|k| (k.span.start(), k.span.end())).collect()
+}
+pub fn sp(s: &Span<'_>) -> (usize, usize) {
+    (s.start(), s.end())
+}
 
 /// What a generated shard exposes per rule.
 pub struct RuleEntry {
@@ -653,6 +685,7 @@ pub struct RuleEntry {
     pub compare: Option<CompareRunner>,
     pub tree: Option<TreeRunner>,
     pub getters: Option<GetterRunner>,
+    pub acc: Option<AccRunner>,
     /// `Parser::parse(__w_r, input)` with `__w_r = { r }`
     pub pest: PestRunner,
     /// `Parser::parse(__a_r, input)` with `__a_r = @{ r }`
@@ -692,5 +725,7 @@ pub struct GrammarEntry {
     pub init_alphabet: &'static [&'static str],
     pub init_depth: usize,
     pub all_forms: bool,
+    /// explicit input list (instead of all strings over the alphabet)
+    pub inputs: Option<&'static [&'static str]>,
     pub rules: Vec<RuleEntry>,
 }
